@@ -310,6 +310,9 @@ func unmarshalUnprotected(key any, value cbor.RawMessage) (any, error) {
 // unmarshalAsCountersignature produces a Countersignature struct or a list of
 // Countersignatures.
 func unmarshalAsCountersignature(value cbor.RawMessage) (any, error) {
+	if len(value) == 0 || value[0]>>5 != 4 { // major type 4: array
+		return nil, errors.New("invalid Countersignature object / list of objects")
+	}
 	var result1 Countersignature
 	err := decMode.Unmarshal(value, &result1)
 	if err == nil {
@@ -317,10 +320,27 @@ func unmarshalAsCountersignature(value cbor.RawMessage) (any, error) {
 	}
 	var result2 []*Countersignature
 	err = decMode.Unmarshal(value, &result2)
-	if err == nil {
+	if err == nil && isCountersignatureValue(result2) {
 		return result2, nil
 	}
 	return nil, errors.New("invalid Countersignature object / list of objects")
+}
+
+// isCountersignatureValue checks that value is a Countersignature or a list of
+// Countersignatures without nil entries.
+func isCountersignatureValue(value any) bool {
+	switch v := value.(type) {
+	case *Countersignature:
+		return v != nil
+	case []*Countersignature:
+		for _, cs := range v {
+			if cs == nil {
+				return false
+			}
+		}
+		return true
+	}
+	return false
 }
 
 // unmarshalAsAny produces simple types.
@@ -600,10 +620,8 @@ func validateHeaderParameters(h map[any]any, protected bool) error {
 			if protected {
 				return errors.New("header parameter: counter signature: not allowed")
 			}
-			if _, ok := value.(*Countersignature); !ok {
-				if _, ok := value.([]*Countersignature); !ok {
-					return errors.New("header parameter: counter signature is not a Countersignature or a list")
-				}
+			if !isCountersignatureValue(value) {
+				return errors.New("header parameter: counter signature is not a Countersignature or a list")
 			}
 		case HeaderLabelCounterSignature0:
 			if protected {
@@ -616,10 +634,8 @@ func validateHeaderParameters(h map[any]any, protected bool) error {
 			if protected {
 				return errors.New("header parameter: Countersignature version 2: not allowed")
 			}
-			if _, ok := value.(*Countersignature); !ok {
-				if _, ok := value.([]*Countersignature); !ok {
-					return errors.New("header parameter: Countersignature version 2 is not a Countersignature or a list")
-				}
+			if !isCountersignatureValue(value) {
+				return errors.New("header parameter: Countersignature version 2 is not a Countersignature or a list")
 			}
 		case HeaderLabelCounterSignature0V2:
 			if protected {
